@@ -442,10 +442,29 @@ func verifHosts(l *roundRobinLoadBalancer) []*Host { return l.hosts.Load().([]*H
 //@   requires c != nil && c.closingMu != nil && c.pending != nil && c.conn != nil && c.codec != nil && c.logger != nil
 //@   modifies *, c.pending.$has, c.pending.$tag, c.pending.$val
 
-//@ func proxycore.Conn.Close [C14]
+// C17 / C18: a connection's "closed" channel is closed exactly once (a second close would panic and take
+// the process down). Conn is a monitor: under mu, "an error has been recorded" and "the channel
+// has been closed" are the same fact - for every interleaving of the reader, the writer and Close.
+//@ type proxycore.Conn
+//@   immutable: conn, closed, messages, recv, writer, reader, mu
+//@   guarded_by mu: err
+//@   invariant (self.err != nil) == closed(self.closed)
+
+//@ func proxycore.Conn.Close [C14, C17]
 //@   preserves-type proxycore.Cluster, proxycore.ClusterConfig
 //@   requires c != nil
 //@   modifies *
+
+// checkErr: the first error closes the connection (socket and channel), later ones change nothing.
+//@ func proxycore.Conn.checkErr [C17, C18]
+//@   requires c != nil
+//@   ensures result == (err != nil)
+//@   ensures err != nil ==> closed(c.closed)
+//@   modifies c.err, closed(c.closed)
+
+//@ func proxycore.Conn.Err [C18]
+//@   requires c != nil
+//@   modifies nothing
 
 //@ func proxycore.Conn.LocalAddr
 //@   trusted
